@@ -279,3 +279,54 @@ Print Assumptions failed_frame_restores_reads.
 Print Assumptions static_no_write.
 Print Assumptions static_frame_no_write.
 Print Assumptions staticcall_no_write.
+
+(* ================================================================ composition *)
+(* C10 <-> C07 (EVM/ProofsRefund.v, Compose/EvmOracle.v).  Property C07 models the transaction wrapper over an ABSTRACT clause
+   oracle and assumes of it only TxExec.Proofs.oracle_ok: for gas >= 0 a clause hands back 0 <= left <= gas and a refund
+   counter >= 0.  For this interpreter model, driven the way runtime.PrepareClause drives the EVM (fresh statedb per clause,
+   call_top for a clause with a recipient, do_create at depth 0 / creation counter 0 for a creation, fuel gas+1), that premise is
+   a theorem: the gas half is 2 above (run_terminates_within_gas; do_create_gas for a top-level creation); the refund half
+   needs a fact not stated so far — the refund counter never decreases along a run, at any depth, whatever the outcome: only
+   gasSStore (+15000, clearing a slot) and gasSuicide (+24000) add to it, no instruction body touches it, and a frame that does
+   not end successfully returns its entry world (3 above). *)
+From Verif Require EVM.ProofsRefund TxExec.Model TxExec.Proofs Compose.EvmOracle.
+
+Theorem refund_counter_monotone fuel E cx s : w_refund (s_world s) <= w_refund (r_world (run fuel E cx s)).
+Proof. exact (ProofsRefund.run_refund fuel E cx s). Qed.
+
+Theorem entry_call_refund_monotone fuel E static to v input gas w :
+  w_refund w <= w_refund (r_world (call_top fuel E static to v input gas w)).
+Proof. exact (ProofsRefund.call_top_refund fuel E static to v input gas w). Qed.
+
+Theorem nested_frame_refund_monotone fuel E self cs vs static d k to v args gas w cc :
+  w_refund w <= w_refund (r_world (do_call (run fuel E) E self cs vs static d k to v args gas w cc)).
+Proof. exact (ProofsRefund.frame_refund fuel E self cs vs static d k to v args gas w cc). Qed.
+
+Theorem creation_refund_monotone fuel E self static d addr init v gas w cc :
+  w_refund w <= w_refund (r_world (do_create (run fuel E) E self static d addr init v gas w cc)).
+Proof. exact (ProofsRefund.create_refund fuel E self static d addr init v gas w cc). Qed.
+
+(* what C07 assumes about the EVM, for the clause oracle induced by this model (every way of reading the EVM environment /
+   accounts view / input bytes off C07's state and of writing the result back) *)
+Theorem c07_oracle_premise_holds (Wd Od : Type)
+        (evm_env : TxExec.Model.env -> TxExec.Model.txn -> nat -> TxExec.Model.state Wd -> env)
+        (world_of : TxExec.Model.state Wd -> world) (input_of : TxExec.Model.txn -> nat -> list Z)
+        (world_back : TxExec.Model.state Wd -> world -> Wd) (ops_of : fres -> list Verif.Ledger.Model.op) (out_of : fres -> Od) :
+  TxExec.Proofs.oracle_ok Wd Od (EvmOracle.evm_clause_result Wd Od evm_env world_of input_of world_back ops_of out_of).
+Proof. exact (EvmOracle.evm_oracle_ok Wd Od evm_env world_of input_of world_back ops_of out_of). Qed.
+
+(* non-vacuity: the counter really moves — contract 10 clears slot 5 (PUSH0; PUSH1 5; SSTORE; STOP): 0 -> 15000; the same call
+   into the failing variant (… INVALID) hands the entry world back, counter 0 *)
+Example refund_nonvacuous :
+  let w c := mkWorld [(10, mkAcc 0 c false)] [(10, 5, 3)] [] 0 [] [] in
+  w_refund (r_world (call_top 100 exE false 10 0 [] 10000 (w [95; 96; 5; 85; 0]))) = 15000 /\
+  r_out (call_top 100 exE false 10 0 [] 10000 (w [95; 96; 5; 85; 254])) = O_err E_invalid /\
+  w_refund (r_world (call_top 100 exE false 10 0 [] 10000 (w [95; 96; 5; 85; 254]))) = 0.
+Proof. vm_compute. repeat split; reflexivity. Qed.
+
+Print Assumptions refund_counter_monotone.
+Print Assumptions entry_call_refund_monotone.
+Print Assumptions nested_frame_refund_monotone.
+Print Assumptions creation_refund_monotone.
+Print Assumptions c07_oracle_premise_holds.
+Print Assumptions refund_nonvacuous.
